@@ -177,18 +177,12 @@ def exact_currents(cspec):
     return {n: q * int(m) for n, m in cspec["mult"].items()}
 
 
-def make_currents(cspec):
-    """Terminal currents for the solver from a spec:
-       None | {"kind":"dict","quantum":str,"mult":{name:int}} | {"kind":"callable", ..., "profile": "step"|"ramp"|"sine", "t0":float}
-    Floats are produced the way a user would write them: float(int * decimal quantum)."""
-    if cspec is None:
-        return None
-    ex = exact_currents(cspec)
-    vals = {n: float(v) for n, v in ex.items()}
-    if cspec["kind"] == "dict":
-        return vals
+def _profile(cspec, t_total=None):
     prof = cspec.get("profile", "ramp")
-    t0 = float(cspec.get("t0", 1.0))
+    if "t0_frac" in cspec and t_total:
+        t0 = float(cspec["t0_frac"]) * float(t_total)
+    else:
+        t0 = float(cspec.get("t0", 1.0))
 
     def factor(t):
         if prof == "step":
@@ -197,22 +191,38 @@ def make_currents(cspec):
             return min(1.0, max(0.0, t / t0))
         if prof == "sine":
             return float(np.sin(t / t0))
+        if prof == "pulse":  # full current first, then a smaller one of opposite sign, then off
+            return 1.0 if t < t0 else (-0.5 if t < 2 * t0 else 0.0)
         return 1.0
+
+    return factor
+
+
+def make_currents(cspec, t_total=None):
+    """Terminal currents for the solver from a spec:
+       None | {"kind":"dict","quantum":str,"mult":{name:int}} | {"kind":"callable", ..., "profile": ..., "t0"|"t0_frac": float}
+    Floats are produced the way a user would write them: float(int * decimal quantum)."""
+    if cspec is None:
+        return None
+    ex = exact_currents(cspec)
+    vals = {n: float(v) for n, v in ex.items()}
+    if cspec["kind"] == "dict":
+        return vals
+    factor = _profile(cspec, t_total)
 
     def currents(t):
         f = factor(t)
         return {n: v * f for n, v in vals.items()}
 
-    currents.factor = factor
     return currents
 
 
-def current_factor(cspec, t):
+def current_factor(cspec, t, t_total=None):
     if cspec is None:
         return 0.0
     if cspec["kind"] == "dict":
         return 1.0
-    return make_currents(cspec).factor(t)
+    return _profile(cspec, t_total)(t)
 
 
 def make_epsilon(espec):
